@@ -204,9 +204,17 @@ package datamodel
 //@   loop 0 invariant forall k mathint :: 0 <= k && k < i ==> p.segments[k].i < 0 && p.segments[k].s == ss[k]
 //@   loop 0 invariant forall k mathint :: 0 <= k && k < ssl ==> ss[k] == strings.fieldat(pth, k)
 
+// Path.String: the strings of the segments in order, one '/' between two of them, nothing else (no
+// cleaning of "." or ".." segments: they are ordinary map keys); the result is what was written.
 //@ func (Path).String() (r)
 //@   assigns[C20] nothing
 //@   loop 0 invariant 0 <= i && i <= l - 1 && l == len(p.segments)
+//@   before WriteString@0 assert[C14] carg1 == segstr(p.segments[i])
+//@   before WriteByte assert[C14] carg1 == 47
+//@   before WriteString@1 assert[C14] carg1 == segstr(p.segments[l-1]) && i == l - 1
+//@   after String let written = result0
+//@   ensures[C14] len(p.segments) == 0 ==> r == ""
+//@   ensures[C14] len(p.segments) > 0 ==> defined(written) && r == written
 
 //@ func NewPath(segments) (r)
 //@   assigns nothing
